@@ -46,3 +46,13 @@ Theorem C02_equivalence_classes_respect_the_nfa : forall a ec al,
   forall X, nrun a w1 X = nrun a w2 X.
 Proof. exact ec_consistent_run. Qed.
 Print Assumptions C02_equivalence_classes_respect_the_nfa.
+
+(** The same at the level of the token: the match loop run over the NFA selects
+    the same rule and the same length for inputs that agree class by class,
+    from any state of the loop and with any remembered accepting pair. *)
+Theorem C02_equivalence_classes_preserve_the_token : forall a ec al,
+  ec_consistent a ec al = true ->
+  forall w1 w2, Forall2 (fun b1 b2 => In b1 al /\ In b2 al /\ ec b1 = ec b2) w1 w2 ->
+  forall i n last, scan (nview a) i w1 n last = scan (nview a) i w2 n last.
+Proof. exact ec_consistent_scan. Qed.
+Print Assumptions C02_equivalence_classes_preserve_the_token.
